@@ -306,6 +306,18 @@ def execute(scn):
                     cls, uid = make_class(op, step, version)
                 else:
                     cls, uid = make_class(op, step, None)
+                    if op["v"] >= 2:
+                        # the documented way to give a derived class a metaschema of its own: replace META_SCHEMA
+                        # on the class AFTER it was made (here: same content, the id it is going to be known by),
+                        # then register it by hand.  Until then it carried a provisional id.
+                        final = dict(cls.META_SCHEMA)
+                        idkw = "id" if op["base"] in ("draft3", "draft4") else "$id"
+                        provisional = dict(final)
+                        provisional[idkw] = "urn:dsim:c20:provisional-%d" % step
+                        cls = V.create(meta_schema=provisional, validators=dict(cls.VALIDATORS),
+                                       type_checker=cls.TYPE_CHECKER, id_of=cls.ID_OF)
+                        cls.META_SCHEMA = final
+                        probe("metaschema_replaced_before_registration")
                     # registered ids so far unchanged by the mere creation of an unregistered class
                     check_registry(step, k + ":before")
                     V.validates(version)(cls)
